@@ -692,6 +692,38 @@ def scenario_refinegrains(run, seed, idx, mods):
         run.count("permutation_runs")
         if not np.array_equal(lab2[uniq], lab[uniq]):
             V("assignlabels:order-dependent", "labels depend on the order of grains")
+    # ---- the grains come from a grain file (readubis -> generate_grains, the makemap / filtergrain route) in which only
+    # SOME grains carry a "#translation:" line: a grain without one sits at the position given by t_x, t_y, t_z of the
+    # parameters, wherever it stands in the file
+    if ng >= 2 and rng(seed, "C07", "grainfile", idx).random() < 0.6:
+        j0 = int(rng(seed, "C07", "grainfile-j", idx).integers(1, ng))       # never the first grain in the file
+        T = np.asarray(grains[j0][1], float)
+        os.makedirs(os.path.join(WORK, "tmp"), exist_ok=True)
+        fd, gfn = tempfile.mkstemp(prefix="c07_", suffix=".map", dir=os.path.join(WORK, "tmp"))
+        os.close(fd)
+        try:
+            gl = [grain.grain(np.linalg.inv(grains[g][0]), translation=(None if g == j0 else grains[g][1].copy())) for g in range(ng)]
+            grain.write_grain_file(gfn, gl)
+            back = grain.read_grain_file(gfn)
+            o2 = refinegrains.refinegrains(tolerance=tol, OmFloat=False)
+            o2.parameterobj = parameters.parameters(**dict(p, t_x=float(T[0]), t_y=float(T[1]), t_z=float(T[2])))
+            cf3 = columnfile.colfile_from_dict({"sc": s["sc"].copy(), "fc": s["fc"].copy(), "omega": s["omega"].copy(),
+                                                "labels": np.zeros(n) - 2, "drlv2": np.ones(n)})
+            o2.scannames = ["scan"]
+            o2.scandata["scan"] = cf3
+            with contextlib.redirect_stdout(io.StringIO()):
+                o2.readubis(gfn)
+                o2.generate_grains()
+                o2.assignlabels(quiet=True)
+            run.count("assignlabels_runs_from_a_grain_file")
+            # reference from what the file holds (its own print precision) for the grains that have a translation line
+            ts3 = [T if g == j0 else np.asarray(back[g].translation, float) for g in range(ng)]
+            gvs3 = np.array([np.asarray(geom.forward(p, s["sc"], s["fc"], s["omega"], t_)["g"], float) for t_ in ts3])
+            errs3 = ref_errors([np.asarray(b_.ubi, float) for b_ in back], gvs3)
+            judge(run, V, errs3, tol, 12, np.asarray(cf3.labels).astype(int), np.asarray(cf3.drlv2, float), 1.0, np.arange(ng),
+                  "assignlabels:grain-file-mixed-translations")
+        finally:
+            os.remove(gfn)
     for nt in (1, 3, 16, 64):
         cImageD11.cimaged11_omp_set_num_threads(nt)
         with contextlib.redirect_stdout(io.StringIO()):
